@@ -164,6 +164,13 @@ def rule_tconst(ctx, repo):
                         ok = True
     ctx.check(ok, "C11.tconst", "Model.set", "altering a time constant updates dae.Tf and the diagonal of TDS.Teye at the state's address",
               "a changed time constant is no longer propagated to both dae.Tf and TDS.Teye", s.W())
+    # universality: one parameter may be the time constant of several states (REGCA1.Tg, REPCA1.Tfltr ...): every one is visited
+    for lp, e in Q.loops(fn, "self.states.values()", "$st"):
+        ex = Q.early_exits(lp)
+        inner = [x for lp2, e2 in Q.loops(lp, "uid", "$ii", e) for x in Q.early_exits(lp2)]
+        ctx.check(not ex and not inner, "C11.tconst", "Model.set/all-states", "the loop over states (and over the addressed devices) has no early exit",
+                  "`%s` at line %d leaves the update loop early: further states governed by the same time constant keep the old value in "
+                  "dae.Tf / Teye" % (src((ex + inner)[0]), (ex + inner)[0].lineno) if (ex or inner) else "", s.W(lp))
     w = [n for n in s.g.nodes() if s.g.data(n)["kind"] == "stmt" and Q.match("instance.__dict__[attr][uid] = value", s.g.data(n)["ast"])]
     ok = bool(w) and Q.has("uid = self.idx2uid(idx)", fn) and Q.has("instance = self.__dict__[src]", fn)
     ctx.check(ok, "C11.tconst", "Model.set/write", "<src>.<attr>[idx2uid(idx)] = value", "set() no longer writes the addressed element", s.W())
@@ -243,7 +250,7 @@ def rule_reset(ctx, repo):
 def run(ctx):
     ctx.rule("C11.coeff", "coefficient table == textbook base ratios (normal form), key set == NumParam flags, all applied, base selection", 13)
     ctx.rule("C11.invariant", "v == vin*k after to_array / set_pu_coeff / restore / both branches of Model.alter; Group.alter delegates", 6)
-    ctx.rule("C11.tconst", "time-constant alteration reaches dae.Tf and TDS.Teye", 2)
+    ctx.rule("C11.tconst", "time-constant alteration reaches dae.Tf and TDS.Teye for every governed state", 3)
     ctx.rule("C11.export", "export reads the input-base view and refreshes the cached view first (dominance)", 5)
     ctx.rule("C11.reset", "restore before setup on reset", 3)
     ctx.assume("'takes effect in the next residual evaluation' beyond these data-flow facts is declined")
